@@ -116,7 +116,6 @@ func NewContextualStore(store *Store) *Store {
 		logger:               store.logger.Named("contextual-store"),
 		statsdClient:         store.statsdClient,
 		idseq:                store.idseq,
-		idtxn:                store.idtxn,
 		idmux:                store.idmux,
 		fullsyncLeaseTimeout: store.fullsyncLeaseTimeout,
 		blockCacheSize:       store.blockCacheSize,
